@@ -198,6 +198,52 @@ func init() {
 		Old: "\t\t\t\t\tcase \"<\", \"<=\", \">\", \">=\", \"==\", \"!=\":\n\t\t\t\t\tdefault:", New: "\t\t\t\t\tcase \"<\", \"<=\", \">\", \">=\", \"==\", \"!=\", \"<>\":\n\t\t\t\t\tdefault:",
 		Expect: "R12.where-operators", Key: "accepted/<>", Why: "an operator the matcher does not know"})
 
+	// ---- R19 / R2 / R20 ----------------------------------------------------
+	mutant(&Mutant{Name: "delete-forgets-points", Props: []string{"C19"}, File: fColl,
+		Old: "\tif prev.Expires() != 0 {\n\t\tc.expires.Delete(prev)\n\t}\n\tc.points -= prev.Geo().NumPoints()\n\tc.weight -= prev.Weight()\n\treturn prev",
+		New: "\tif prev.Expires() != 0 {\n\t\tc.expires.Delete(prev)\n\t}\n\tc.weight -= prev.Weight()\n\treturn prev",
+		Expect: "R19.delta", Key: "points", Why: "num_points drifts after DEL"})
+	mutant(&Mutant{Name: "setfill-wrong-operand", Props: []string{"C19"}, File: fColl,
+		Old: "\t\tc.points -= prev.Geo().NumPoints()\n\t\tc.weight -= prev.Weight()\n\t}", New: "\t\tc.points -= prev.Geo().NumPoints()\n\t\tc.weight -= obj.Weight()\n\t}",
+		Expect: "R19.delta", Key: "weight", Why: "overwrite subtracts the new object's weight"})
+	mutant(&Mutant{Name: "setfill-expires-guard", Props: []string{"C19", "C14"}, File: fColl,
+		Old: "\tif obj.Expires() != 0 {\n\t\tc.expires.Set(obj)\n\t}", New: "\tif obj.Expires() > 0 {\n\t\tc.expires.Set(obj)\n\t}",
+		Expect: "R19.delta", Key: "expires", Why: "insert and delete guards of the expiry index disagree"})
+	mutant(&Mutant{Name: "collection-extra-writer", Props: []string{"C19"}, File: fColl,
+		Old: "// Get returns an object.", New: "// Touch is a test helper.\nfunc (c *Collection) Touch() { c.objects++ }\n\n// Get returns an object.",
+		Expect: "R19.who-writes", Key: "Touch", Why: "a counter written outside the bookkeeping functions"})
+	mutant(&Mutant{Name: "count-wrong-field", Props: []string{"C19"}, File: fColl,
+		Old: "\treturn c.objects + c.nobjects\n", New: "\treturn c.objects\n",
+		Expect: "R19.accessors", Key: "accessor/Count", Why: "Count ignores string values"})
+	mutant(&Mutant{Name: "search-plain-float32", Props: []string{"C02"}, File: fColl,
+		Old: "\talive := true\n\tmin, max := rtreeRect(rect)\n", New: "\talive := true\n\tmin := [2]float32{float32(rect.Min.X), float32(rect.Min.Y)}\n\tmax := [2]float32{float32(rect.Max.X), float32(rect.Max.Y)}\n",
+		Expect: "R2.quantiser-agreement", Key: "geoSearch", Why: "the reader rounds to nearest while the writer rounds outward"})
+	mutant(&Mutant{Name: "within-unfiltered", Props: []string{"C02"}, File: fColl,
+		Old: "\t\tnextStep(count, cursor, deadline)\n\t\tif o.Geo().Within(obj) {\n\t\t\treturn iter(o)\n\t\t}\n\t\treturn true", New: "\t\tnextStep(count, cursor, deadline)\n\t\treturn iter(o)",
+		Expect: "R2.exact-filter", Key: "Within", Why: "WITHIN returns every index candidate"})
+	mutant(&Mutant{Name: "intersects-wrong-operand", Props: []string{"C02"}, File: fColl,
+		Old: "\t\t\tif match = o.Geo().Intersects(gobj); match {", New: "\t\t\tif match = o.Geo().Intersects(o.Geo()); match {",
+		Expect: "R2.no-self-operand", Key: "Intersects", Why: "sparse INTERSECTS tests the candidate against itself"})
+	mutant(&Mutant{Name: "roam-self-distance-operand", Props: []string{"C02"}, File: "internal/server/fence.go",
+		Old: "meters := obj.Geo().Distance(o.Geo())\n\t\t\tif meters > fence.roam.meters {", New: "meters := o.Geo().Distance(o.Geo())\n\t\t\tif meters > fence.roam.meters {",
+		Expect: "R2.no-self-operand", Key: "fenceMatchNearbys", Why: "reverse of the roaming distance fix (self operand)"})
+	mutant(&Mutant{Name: "roam-self-distance", Props: []string{"C20"}, File: "internal/server/fence.go",
+		Old: "meters := obj.Geo().Distance(o.Geo())\n\t\t\tif meters > fence.roam.meters {", New: "meters := o.Geo().Distance(o.Geo())\n\t\t\tif meters > fence.roam.meters {",
+		Expect: "R20.radius-operands", Key: "radius-guard", Why: "reverse of the roaming distance fix"})
+	mutant(&Mutant{Name: "roam-no-radius-test", Props: []string{"C20"}, File: "internal/server/fence.go",
+		Old: "\t\t\tif meters > fence.roam.meters {\n\t\t\t\treturn true // skip outside radius\n\t\t\t}\n", New: "\t\t\t_ = meters\n",
+		Expect: "R20.radius-operands", Key: "radius-guard", Why: "everything in the bounding rectangle is nearby"})
+	mutant(&Mutant{Name: "roam-pattern-always-glob", Props: []string{"C20"}, File: "internal/server/fence.go",
+		Old: "\t\t\tif fence.roam.pattern {\n\t\t\t\tidMatch, _ = glob.Match(fence.roam.id, o.ID())\n\t\t\t} else {\n\t\t\t\tidMatch = fence.roam.id == o.ID()\n\t\t\t}\n\t\t\tif !idMatch {\n\t\t\t\treturn true // skip non-id match\n\t\t\t}",
+		New: "\t\t\tif fence.roam.pattern {\n\t\t\t\tidMatch, _ = glob.Match(fence.roam.id, o.ID())\n\t\t\t} else {\n\t\t\t\tidMatch = fence.roam.id == o.ID()\n\t\t\t}\n\t\t\tif !idMatch && len(nearbys) > 1000 {\n\t\t\t\treturn true // skip non-id match\n\t\t\t}",
+		Expect: "R20.pattern-filter", Key: "filter-dominates-append", Why: "the id filter is computed but not applied"})
+	mutant(&Mutant{Name: "roam-faraway-stale-distance", Props: []string{"C20"}, File: "internal/server/fence.go",
+		Old: "\t\tfaraways[i].meters = faraways[i].obj.Distance(obj.Geo())\n", New: "\t\tfaraways[i].meters = faraways[i].obj.Distance(old.Geo())\n",
+		Expect: "R20.radius-operands", Key: "faraway-recompute", Why: "faraway distances refer to the previous position"})
+	mutant(&Mutant{Name: "neutral-delete-helper", Props: []string{"C19", "C02", "C14"}, Neutral: true, File: fColl,
+		Old: "\tif prev.IsSpatial() {\n\t\tif !prev.Geo().Empty() {\n\t\t\tc.indexDelete(prev)\n\t\t}\n\t\tc.objects--", New: "\tif prev.IsSpatial() {\n\t\tc.indexDelete(prev)\n\t\tc.objects--",
+		Why: "the redundant outer emptiness test removed (the helper tests it)"})
+
 	// ---- neutral variants --------------------------------------------------
 	mutant(&Mutant{Name: "neutral-rename-write-flag", Props: []string{"C03", "C07", "C15"}, Neutral: true, File: fScripts,
 		Old: "func (s *Server) luaTile38NonAtomic(msg *Message) (resp.Value, error) {\n\tvar write bool\n", New: "func (s *Server) luaTile38NonAtomic(msg *Message) (resp.Value, error) {\n\tvar write bool\n\t_ = \"neutral\"\n",
